@@ -218,8 +218,10 @@ func (m *Machine) schedule(g0 *G) (string, string) {
 				continue
 			}
 		}
+		atSync := m.yieldAtSync
+		m.yieldAtSync = false
 		var g *G
-		if m.exploreSched && len(ready) > 1 {
+		if m.exploreSched && len(ready) > 1 && (!m.atomicOnly || atSync) {
 			// prefer continuing the current goroutine as choice 0
 			sort.SliceStable(ready, func(i, j int) bool { return ready[i] == m.lastRun && ready[j] != m.lastRun })
 			if m.preemptions >= m.maxPreempt && ready[0] == m.lastRun {
@@ -264,6 +266,10 @@ func (m *Machine) syncPoint(fr *Frame) {
 	if !m.exploreSched || m.initDepth > 0 {
 		return // package initialisers run atomically
 	}
+	if m.atomicOnly && !m.inAtomicOp {
+		return
+	}
+	m.yieldAtSync = true
 	g := m.cur
 	g.state = gRunnable
 	m.yield(g)
@@ -448,6 +454,25 @@ func (m *Machine) chanClose(fr *Frame, ch *ChanV) {
 	}
 	ch.closed = true
 	m.hbClose(m.cur, ch)
+	// As in the Go runtime, closing a channel wakes every goroutine waiting to receive from it, with that case: a
+	// select blocked on several channels is committed to this one now - a value sent on one of its other channels
+	// afterwards does not reach it (it finds nobody waiting).
+	if len(ch.buf) == 0 {
+		for _, g := range m.gs {
+			if g.state != gBlocked || g.wait == nil || g.wait.fired >= 0 {
+				continue
+			}
+			for i, c := range g.wait.cases {
+				if c.ch == ch && !c.send {
+					g.wait.fired = i
+					g.wait.recvVal = nil
+					g.wait.recvOk = false
+					m.hbRecvClosed(g, ch)
+					break
+				}
+			}
+		}
+	}
 	m.syncPoint(fr)
 }
 
